@@ -48,6 +48,42 @@ theorem genSub_spec {version : Nat} {p : Prog} {sd : SubDef} {slots : List Nat} 
       exact this
   · cases h
 
+/-- the same under the frame-pointer convention (by-value parameters only): the prologue is
+    `proto`, parameters are read with `frame_dig` -/
+theorem genSub_spec_fp {version : Nat} {p : Prog} {sd : SubDef} {slots : List Nat} {r : Routine}
+    (hval : ∀ kv ∈ sd.params, kv.1 = ParamKind.val)
+    (h : genSub version true false p sd slots = .ok r) :
+    ∃ bs, Blk r.G r.start [.proto sd.params.length (if sd.hasRet then 1 else 0)] (.next bs) ∧
+      ShapeR r.G { version := version, inSub := true, framePointers := true, frameParams := fpParams sd,
+                   callees := calleesOf p, reenters := sd.reenters, localSlots := slots, markIndex := false }
+        (wrapBody sd) bs 0 none := by
+  have hnoref : (((List.range sd.params.length).zip sd.params).reverse.filterMap
+      (fun (x : Nat × ParamKind × Var) => if x.2.1 == ParamKind.ref then
+        some [Instr.frameDig ((x.1 : Int) - (sd.params.length : Int)), Instr.store x.2.2] else none)) = [] := by
+    rw [List.filterMap_eq_nil_iff]
+    intro x hx
+    have hx' := (List.of_mem_zip (List.mem_reverse.mp hx)).2
+    have := hval x.2 hx'
+    rw [this]
+    rfl
+  unfold genSub at h
+  simp only [StateT.run, if_true] at h
+  split at h
+  · rename_i s' g' hrun
+    cases h
+    obtain ⟨exitB, g2, h1, h2⟩ := bind_ok hrun
+    cases emit_ok h1
+    obtain ⟨bs, g3, h3, h4⟩ := bind_ok h2
+    cases opBlock_ok h4
+    have spec := genR_spec _ _ _ _ _ _ h3
+    refine ⟨bs, ?_, ?_⟩
+    · unfold Blk
+      simp only [Array.getElem?_push_size, Option.some.injEq]
+      rw [hnoref]
+      rfl
+    · exact spec.2 _ noP (fun i f => f.elim) (Ext.push g3 _)
+  · cases h
+
 /-- the main routine: block 0 is the exit; the tree (wrapped into `Return` when it has no return
     on every path) starts at the entry block and continues at block 0 -/
 theorem genMainR_spec {version : Nat} {p : Prog} {r : Routine} (h : genMainR version false p = .ok r) :
@@ -72,9 +108,9 @@ theorem genMainR_spec {version : Nat} {p : Prog} {r : Routine} (h : genMainR ver
 
 /-! ### the table of subroutine graphs -/
 
-theorem genSubs_lookup {version : Nat} {p : Prog} : ∀ (l : List SubDef) (rs : List (String × Graph × Nat)),
-    genSubs version false p l = .ok rs → ∀ f sd, l.find? (·.id == f) = some sd →
-      ∃ r, genSub version false false p sd (spillSlots sd) = .ok r ∧ rs.lookup (subLabel f) = some (r.G, r.start)
+theorem genSubs_lookup {version : Nat} {fp : Bool} {p : Prog} : ∀ (l : List SubDef) (rs : List (String × Graph × Nat)),
+    genSubs version fp p l = .ok rs → ∀ f sd, l.find? (·.id == f) = some sd →
+      ∃ r, genSub version fp false p sd (spillSlotsC fp sd) = .ok r ∧ rs.lookup (subLabel f) = some (r.G, r.start)
   | [], rs, _, f, sd, hfind => by cases hfind
   | sd0 :: rest, rs, h, f, sd, hfind => by
     simp only [genSubs] at h
@@ -110,7 +146,7 @@ theorem nodupB_nodup : ∀ (l : List Nat), nodupB l = true → l.Nodup
     exact List.nodup_cons.mpr ⟨h.1, nodupB_nodup xs h.2⟩
 
 /-- the main-routine part of a successful `genProg` -/
-theorem genProg_main {version : Nat} {p : Prog} {Pg : PProg} (h : genProg version false p = .ok Pg) :
+theorem genProg_main {version : Nat} {fp : Bool} {p : Prog} {Pg : PProg} (h : genProg version fp p = .ok Pg) :
     Pg.main[0]? = some ({} : Block) ∧
     ShapeR Pg.main { version := version, inSub := false, callees := calleesOf p, markIndex := false }
       (if hasReturn p.main then p.main else .ret (some p.main)) Pg.start 0 none := by
@@ -122,8 +158,8 @@ theorem genProg_main {version : Nat} {p : Prog} {Pg : PProg} (h : genProg versio
   · cases h
   · cases h
 
-theorem genProg_subs {version : Nat} {p : Prog} {Pg : PProg} (h : genProg version false p = .ok Pg) :
-    genSubs version false p p.subs = .ok Pg.subs := by
+theorem genProg_subs {version : Nat} {fp : Bool} {p : Prog} {Pg : PProg} (h : genProg version fp p = .ok Pg) :
+    genSubs version fp p p.subs = .ok Pg.subs := by
   unfold genProg at h
   split at h
   · rename_i m subs hm hs
@@ -132,37 +168,100 @@ theorem genProg_subs {version : Nat} {p : Prog} {Pg : PProg} (h : genProg versio
   · cases h
   · cases h
 
+theorem beq_eqv (kv : ParamKind × Var) (h : (kv.1 == ParamKind.val) = true) : kv.1 = ParamKind.val := by
+  cases hk : kv.1 with
+  | val => rfl
+  | ref => rw [hk] at h; exact absurd h (by decide)
+
+theorem mem_allParamSlots {p : Prog} {sd : SubDef} (hm : sd ∈ p.subs) {kv : ParamKind × Var} (hk : kv ∈ sd.params) :
+    kv.2 ∈ allParamSlots p := by
+  unfold allParamSlots
+  exact List.mem_flatMap.mpr ⟨sd, hm, List.mem_map.mpr ⟨kv, hk, rfl⟩⟩
+
 /-- from one successful `genSub` (stored under the model label of the routine) and the
     per-routine fragment conditions to `SubOK` -/
 theorem subOK_of_genSub {P : PCtx} {f : Nat} {sd : SubDef} {r : Routine}
-    (hr : genSub P.version false false P.p sd (spillSlots sd) = .ok r)
+    (hr : genSub P.version P.fp false P.p sd (spillSlotsC P.fp sd) = .ok r)
     (hl : P.Pg.subs.lookup (subLabel f) = some (r.G, r.start))
-    (hok : subOk P.p sd = true) : SubOK P f sd := by
-  obtain ⟨bs, hb, hsh⟩ := genSub_spec hr
-  simp only [subOk, Bool.and_eq_true, List.all_eq_true, decide_eq_true_eq] at hok
-  obtain ⟨⟨⟨⟨⟨hwt, hpar⟩, hnd⟩, hloc⟩, hsnd⟩, hss⟩ := hok
-  simp only [sameSet, Bool.and_eq_true, List.all_eq_true, List.contains_eq_mem, decide_eq_true_eq] at hss
-  refine ⟨⟨r.G, r.start, bs, hl, ?_, hsh⟩, hwt, nodupB_nodup _ hnd, fun kv hkv => (hpar kv hkv).2,
-    nodupB_nodup _ hsnd, fun s hs => hloc s (hss.1 s hs), fun x => ⟨hss.2 x, hss.1 x⟩⟩
-  unfold prologue
-  rw [List.map_map]
-  exact hb
+    (hmem : sd ∈ P.p.subs)
+    (hok : subOkC P.fp P.p sd P.dyn = true) : SubOK P f sd := by
+  simp only [subOkC, Bool.and_eq_true, List.all_eq_true, decide_eq_true_eq, Bool.or_eq_true, Bool.not_eq_true',
+    List.contains_eq_mem, decide_eq_false_iff_not, beq_iff_eq] at hok
+  obtain ⟨⟨⟨⟨⟨⟨⟨hwt, hpar⟩, hnd⟩, hloc⟩, hsnd⟩, hs1⟩, hs2⟩, hpl⟩ := hok
+  have hlook : ∃ G sf bs, P.Pg.subs.lookup (subLabel f) = some (G, sf) ∧ Blk G sf (prologue P.fp sd) (.next bs) ∧
+      ShapeR G (subCfg P sd) (wrapBody sd) bs 0 none := by
+    cases hfp : P.fp with
+    | false =>
+      rw [hfp] at hr
+      obtain ⟨bs, hb, hsh⟩ := genSub_spec hr
+      refine ⟨r.G, r.start, bs, hl, ?_, ?_⟩
+      · simp only [prologue, Bool.false_eq_true, if_false]
+        rw [List.map_map]
+        exact hb
+      · simp only [subCfg, hfp, Bool.false_eq_true, if_false]
+        exact hsh
+    | true =>
+      rw [hfp] at hr
+      obtain ⟨bs, hb, hsh⟩ := genSub_spec_fp (fun kv hkv => by
+        rcases (hpar kv hkv).1 with h | h
+        · exact beq_eqv kv h
+        · rw [hfp] at h; cases h) hr
+      refine ⟨r.G, r.start, bs, hl, ?_, ?_⟩
+      · simp only [prologue, if_true]
+        exact hb
+      · simp only [subCfg, hfp, if_true]
+        exact hsh
+  refine ⟨hlook, hwt, nodupB_nodup _ hnd, ?_, ?_, ?_, ?_,
+    nodupB_nodup _ hsnd, ?_, ?_, ?_⟩
+  · -- p256
+    intro hfp kv hkv
+    rcases (hpar kv hkv).2 with h | h
+    · rw [hfp] at h; cases h
+    · exact h
+  · -- pval
+    intro hfp kv hkv
+    rcases (hpar kv hkv).1 with h | h
+    · exact beq_eqv kv h
+    · rw [hfp] at h; cases h
+  · -- pign
+    intro hfp kv hkv
+    simp only [PCtx.ign, ignOf, hfp, if_true]
+    exact mem_allParamSlots hmem hkv
+  · -- plocal
+    intro hfp kv hkv
+    rcases hpl with h | h
+    · rw [hfp] at h; cases h
+    · exact h kv hkv
+  · -- s256
+    intro s hs
+    rcases hloc s (hs1 s hs).1 with h | h
+    · exact absurd h (hs1 s hs).2
+    · exact h
+  · -- sset
+    intro x hx
+    refine ⟨fun h => ?_, fun h => (hs1 x h).1⟩
+    rcases hs2 x h with h' | h'
+    · exact absurd h' hx
+    · exact h'
+  · -- snign
+    intro x hx
+    exact (hs1 x hx).2
 
 /-- **Closing lemma for whole programs**: a successful `genProg` on a program of the fragment
     yields routine graphs with the properties the semantic half needs. -/
-theorem progOK_of_gen {version : Nat} {p : Prog} {Pg : PProg} (cx : Ctx)
-    (hg : genProg version false p = .ok Pg) (hf : inFragmentR p = true) :
-    ProgOK ⟨cx, p, Pg, version⟩ := by
+theorem progOK_of_gen {version : Nat} {fp dyn : Bool} {p : Prog} {Pg : PProg} (cx : Ctx)
+    (hg : genProg version fp p = .ok Pg) (hf : inFragmentC fp p dyn = true) :
+    ProgOK ⟨cx, p, Pg, version, fp, dyn⟩ := by
   intro f sd hsd _
   have hsubs := genProg_subs hg
   obtain ⟨r, hr, hl⟩ := genSubs_lookup p.subs Pg.subs hsubs f sd hsd
   have hmem : sd ∈ p.subs := List.mem_of_find?_eq_some hsd
-  simp only [inFragmentR, Bool.and_eq_true, List.all_eq_true] at hf
-  exact subOK_of_genSub (P := ⟨cx, p, Pg, version⟩) hr hl (hf.1.2 sd hmem)
+  simp only [inFragmentC, Bool.and_eq_true, List.all_eq_true] at hf
+  exact subOK_of_genSub (P := ⟨cx, p, Pg, version, fp, dyn⟩) hr hl hmem (hf.1.1.2 sd hmem)
 
 /-- `genProg` generates a graph for every declared routine -/
-theorem callPresent_of_gen {version : Nat} {p : Prog} {Pg : PProg} (cx : Ctx)
-    (hg : genProg version false p = .ok Pg) : CallPresent ⟨cx, p, Pg, version⟩ := by
+theorem callPresent_of_gen {version : Nat} {fp dyn : Bool} {p : Prog} {Pg : PProg} (cx : Ctx)
+    (hg : genProg version fp p = .ok Pg) : CallPresent ⟨cx, p, Pg, version, fp, dyn⟩ := by
   intro X cfg K cur hR f ce cb k hf _
   rw [hR.callees, callees_find] at hf
   cases hsd : findSub p f with
